@@ -264,6 +264,11 @@ static std::string handle(const std::vector<std::string>& a) {
         }
     } catch (const ChessParseError& e) {
         return "err " + vFenErrClass(e.what());
+    } catch (const ChessError& e) {
+        return std::string("chess-error ") + e.what();
+    } catch (const std::exception& e) {
+        // anything but a ChessError escaping a parser would terminate the engine
+        return std::string("uncaught-exception ") + e.what();
     }
     return "bad-op";
 }
